@@ -6,7 +6,7 @@ import bibtexparser
 from bibtexparser.library import Library
 from bibtexparser.model import ParsingFailedBlock
 
-from .. import spaces
+from .. import bigdocs, spaces
 from ..engine import seq_iter, seq_shards
 
 ID = "C01"
@@ -86,6 +86,7 @@ def shards(tier):
     out = [("seq", s) for s in seq_shards(spaces.SIGMA_DOC, 5 if tier == "quick" else 6)]
     out += [("ext", s) for s in seq_shards(spaces.SIGMA_DOC_EXT, 3 if tier == "quick" else 5)]
     out += spaces.deviation_shards(len(spaces.BASE_DOCS), 1 if tier == "quick" else 2)
+    out += [("big", n, v) for n in (bigdocs.SIZES_QUICK if tier == "quick" else bigdocs.SIZES_THOROUGH) for v in (0, 1)]
     sizes = SIZES_QUICK if tier == "quick" else SIZES_THOROUGH
     for name in sorted(FAMILIES):
         for n in sizes:
@@ -199,6 +200,19 @@ def check_text(text, acc, case=None, watchdog=None, label=None):
     return ok
 
 
+def big_texts(n, v):
+    """The size-n document, 60 truncations of it and 60 single-character deletions / insertions at evenly spread
+    offsets (so that the damage lands in every kind of position: key, value, comment, between blocks)."""
+    text, _ = bigdocs.document(n, v)
+    yield text
+    L = len(text)
+    for k in range(1, 61):
+        cut = (L * k) // 61
+        yield text[:cut]
+        yield text[:cut] + text[cut + 1 :]
+        yield text[:cut] + '{"@}'[k % 4] + text[cut:]
+
+
 def run_shard(shard, tier, acc):
     kind = shard[0]
     if kind == "seq":
@@ -210,6 +224,10 @@ def run_shard(shard, tier, acc):
     elif kind == "dev":
         for edits, toks in spaces.deviation_iter(shard, spaces.SIGMA_DOC):
             check_text("".join(toks), acc)
+    elif kind == "big":
+        for text in big_texts(shard[1], shard[2]):
+            acc.count("big_texts")
+            check_text(text, acc)
     elif kind == "fam":
         _, name, n = shard
         wd = 120 if tier == "quick" else 900
